@@ -8,7 +8,10 @@ which either draws from the run PRNG and records, or replays a recorded list.
 """
 import contextlib
 import hashlib
+import os
 import random
+import sys
+import threading
 
 import cloudpickle
 import dask
@@ -16,6 +19,11 @@ import dask
 from dask._task_spec import convert_legacy_graph
 
 MODES = ("shared", "isolated", "placed")
+# "threads": tasks share memory AND run concurrently - real threads, exactly one of which holds
+# the baton at any time; a thread is pre-empted at line events inside the repository's own code,
+# at points chosen by the same Choices object (so the interleaving is seeded and replayable)
+ALL_MODES = MODES + ("threads",)
+QUANTA = (1, 2, 5, 20, 100, 10 ** 9)  # line events a resumed task may run before it yields
 POLICIES = ("random", "fifo", "lifo", "stall", "reduce_last", "reduce_first")
 
 
@@ -81,13 +89,14 @@ def _sort_key(key):
 class SimScheduler:
     def __init__(self, mode="shared", policy="random", n_workers=2, stall_p=0.3,
                  choices=None, max_events=200000):
-        if mode not in MODES:
+        if mode not in ALL_MODES:
             raise HarnessError(f"unknown mode {mode}")
         if policy not in POLICIES:
             raise HarnessError(f"unknown policy {policy}")
         self.mode = mode
         self.policy = policy
         self.n_workers = n_workers if mode == "placed" else 1
+        self.n_threads = max(2, n_workers) if mode == "threads" else 1
         self.stall_p = stall_p
         self.choices = choices if choices is not None else Choices(seed=0)
         self.max_events = max_events
@@ -97,9 +106,13 @@ class SimScheduler:
             "gets": 0, "tasks": 0, "reorder_choices": 0, "stalls": 0,
             "spec_copies": 0, "input_copies": 0, "output_copies": 0,
             "transfers": 0, "same_worker_shares": 0, "multi_dep_tasks": 0,
-            "workers_used": 0,
+            "workers_used": 0, "preemptions": 0, "max_concurrent_tasks": 0,
         }
         self._depth = 0
+        self._back = threading.Event()
+        self._owner = threading.get_ident()
+        from . import seams
+        self._repo_prefix = os.path.join(os.path.realpath(seams.repo_root()), "src") + os.sep
 
     # ------------------------------------------------------------------
     def _pick_ready(self, ready, stamps, ndeps):
@@ -134,12 +147,20 @@ class SimScheduler:
     def get(self, dsk, keys, **kwargs):
         self.stats["gets"] += 1
         self._depth += 1
+        nested = self.mode == "threads" and threading.get_ident() != self._owner
+        old_trace = None
+        if nested:
+            # a compute issued from inside a task thread: run it atomically in that thread
+            old_trace = sys.gettrace()
+            sys.settrace(None)
         try:
-            return self._get(dsk, keys)
+            return self._get(dsk, keys, atomic=nested)
         finally:
+            if nested:
+                sys.settrace(old_trace)
             self._depth -= 1
 
-    def _get(self, dsk, keys):
+    def _get(self, dsk, keys, atomic=False):
         if hasattr(dsk, "__dask_graph__"):
             dsk = dsk.__dask_graph__()
         graph = convert_legacy_graph(dict(dsk))
@@ -161,6 +182,8 @@ class SimScheduler:
             wanted.add(k)
             stack.extend(deps[k])
         ndeps = {k: len(deps[k]) for k in wanted}
+        if self.mode == "threads" and not atomic:
+            return self._get_threads(graph, deps, wanted, ndeps, keys)
         remaining = set(wanted)
         done = set()
         store = [dict() for _ in range(self.n_workers)]  # worker -> key -> value
@@ -189,7 +212,7 @@ class SimScheduler:
             # inputs
             inputs = {}
             for d in sorted(deps[k], key=_sort_key):
-                if self.mode == "shared":
+                if self.mode in ("shared", "threads"):
                     inputs[d] = store[0][d]
                 elif self.mode == "isolated":
                     inputs[d] = _roundtrip(store[0][d])
@@ -202,7 +225,7 @@ class SimScheduler:
                         self.stats["same_worker_shares"] += 1
                     inputs[d] = store[w][d]
             # task spec (embeds the estimator / bound methods / literal data)
-            if self.mode == "shared":
+            if self.mode in ("shared", "threads"):
                 run_node = node
             else:
                 try:
@@ -236,6 +259,75 @@ class SimScheduler:
         return _unpack(keys, fetch)
 
     # ------------------------------------------------------------------
+    def _get_threads(self, graph, deps, wanted, ndeps, keys):
+        """Shared memory with concurrency: up to n_threads tasks are in flight; exactly one
+        holds the baton; the holder yields at line events inside the repository's code."""
+        remaining = set(wanted)
+        done, started = set(), set()
+        store = {}
+        running = []
+        budget = max(20000, 200 * len(wanted))
+        steps = 0
+        failure = None
+        while remaining or running:
+            if failure is not None and not running:
+                raise failure  # every in-flight task has been drained
+            ready = sorted((k for k in remaining if k not in started and deps[k] <= done),
+                           key=_sort_key)
+            options = [("resume", t) for t in running]
+            if len(running) < self.n_threads and failure is None:
+                options += [("start", k) for k in ready]
+            if not options:
+                raise HarnessError("threads mode: nothing runnable (cycle in graph?)")
+            steps += 1
+            if steps > budget:
+                raise HarnessError("threads mode: step budget exceeded")
+            if failure is not None:
+                kind, what, quantum = "resume", running[0], QUANTA[-1]  # drain
+            else:
+                self.stats["reorder_choices"] += 1 if len(options) > 1 else 0
+                kind, what = options[self.choices.pick(len(options))]
+                quantum = QUANTA[self.choices.pick(len(QUANTA))]
+            if kind == "start":
+                k = what
+                t = _TaskThread(self, k, graph[k], {d: store[d] for d in deps[k]})
+                started.add(k)
+                running.append(t)
+                self.events.append((self.seq, self._depth, "start:" + str(canon_key(k)),
+                                    _key_index(k), 0, ndeps[k]))
+                self.seq += 1
+                self.stats["max_concurrent_tasks"] = max(self.stats["max_concurrent_tasks"],
+                                                         len(running))
+            else:
+                t = what
+            t.quantum = quantum
+            self._back.clear()
+            t.go.set()
+            if not self._back.wait(timeout=100):
+                raise HarnessError("threads mode: task thread did not yield within 100 s")
+            if t.finished:
+                t.thread.join(timeout=10)
+                running.remove(t)
+                remaining.discard(t.key)
+                if t.exc is not None:
+                    if failure is None:
+                        failure = t.exc
+                    continue
+                store[t.key] = t.value
+                done.add(t.key)
+                self.stats["tasks"] += 1
+                if ndeps[t.key] > 1:
+                    self.stats["multi_dep_tasks"] += 1
+                self.events.append((self.seq, self._depth, "end:" + str(canon_key(t.key)),
+                                    _key_index(t.key), t.preempted, ndeps[t.key]))
+                self.seq += 1
+            if failure is not None and not running:
+                raise failure
+        if failure is not None:
+            raise failure
+        return _unpack(keys, lambda k: store[k])
+
+    # ------------------------------------------------------------------
     def digest(self):
         h = hashlib.blake2b(digest_size=12)
         h.update(repr(self.events).encode())
@@ -245,6 +337,50 @@ class SimScheduler:
     def installed(self):
         with dask.config.set(scheduler=self.get):
             yield self
+
+
+class _TaskThread:
+    """One task of the graph, executed in its own thread under the scheduler's baton."""
+
+    def __init__(self, sim, key, node, inputs):
+        self.sim, self.key, self.node, self.inputs = sim, key, node, inputs
+        self.go = threading.Event()
+        self.finished = False
+        self.exc = None
+        self.value = None
+        self.quantum = 0
+        self.preempted = 0
+        self.thread = threading.Thread(target=self._body, daemon=True)
+        self.thread.start()
+
+    def _body(self):
+        self.go.wait()
+        self.go.clear()
+        sys.settrace(self._trace_call)
+        try:
+            self.value = self.node(self.inputs)
+        except BaseException as e:  # delivered to the caller of compute(), as dask does
+            self.exc = e
+        finally:
+            sys.settrace(None)
+            self.finished = True
+            self.sim._back.set()
+
+    def _trace_call(self, frame, event, arg):
+        if frame.f_code.co_filename.startswith(self.sim._repo_prefix):
+            return self._trace_line
+        return None
+
+    def _trace_line(self, frame, event, arg):
+        if event == "line":
+            self.quantum -= 1
+            if self.quantum <= 0:
+                self.preempted += 1
+                self.sim.stats["preemptions"] += 1
+                self.sim._back.set()
+                self.go.wait()
+                self.go.clear()
+        return self._trace_line
 
 
 def _key_index(k):
@@ -292,9 +428,10 @@ def make_sim(sched, replay=None):
                         choices=ch)
 
 
-def gen_sched(rng, modes=MODES):
+def gen_sched(rng, modes=ALL_MODES):
     """Swarm-style draw of an executor model and policy."""
-    mode = rng.choice(list(modes))
+    modes = list(modes)
+    mode = rng.choices(modes, [1 if m == "threads" else 3 for m in modes])[0]
     r = rng.random()
     if r < 0.6:
         policy = "random"
